@@ -19,6 +19,9 @@ pub struct IoPlan {
     pub eintr_at_write: Option<usize>,
     /// The n-th write performs only `torn` bytes and then the process dies.
     pub crash_at_write: Option<(usize, usize)>,
+    /// The n-th write fails with this errno (ENOSPC, EIO: not retryable)
+    /// without writing anything.
+    pub fail_at_write: Option<(usize, i32)>,
     /// The n-th mmap by this thread fails with ENOMEM.
     pub mmap_fail_at: Option<usize>,
     /// The n-th ftruncate by this thread fails with ENOSPC.
@@ -33,6 +36,7 @@ pub struct IoStats {
     pub writes: usize,
     pub short_writes: usize,
     pub eintr: usize,
+    pub write_errors: usize,
     pub mmaps: usize,
     pub munmaps: usize,
     pub mmap_failed: usize,
@@ -235,6 +239,13 @@ pub unsafe extern "C" fn write(fd: c_int, buf: *const c_void, count: size_t) -> 
         let lim = if p.write_chunks.is_empty() { 0 } else { p.write_chunks[idx % p.write_chunks.len()] };
         (lim, p.eintr_at_write == Some(idx), p.crash_at_write.filter(|c| c.0 == idx).map(|c| c.1))
     });
+    let fail = PLAN.with(|p| p.borrow().fail_at_write.filter(|f| f.0 == idx).map(|f| f.1));
+    if let Some(e) = fail {
+        PLAN.with(|p| p.borrow_mut().fail_at_write = None);
+        STATS.with(|s| s.borrow_mut().write_errors += 1);
+        set_errno(e);
+        return -1;
+    }
     if eintr {
         PLAN.with(|p| p.borrow_mut().eintr_at_write = None);
         STATS.with(|s| s.borrow_mut().eintr += 1);
